@@ -170,6 +170,20 @@ func NewView(r *world.Record) *View {
 	}
 	if best != nil {
 		v.UpdateRev = best.Name
+	} else {
+		// no revision of the set mirrors the template, but the reconcile may have run into an existing
+		// object of the very name and content it wanted to create (e.g. a migrated revision the garbage
+		// collector has not yet released): the controller then uses that object
+		for _, c := range r.Calls {
+			if c.Res == simapi.Revisions && c.Verb == "create" && !c.OK() {
+				if ex, ok := c.Before.(*appsv1.ControllerRevision); ok && ex != nil {
+					if t := world.DecodeRevisionTemplate(ex); t != nil && TemplateEqual(t, &s.Spec.Template) {
+						v.UpdateRev = ex.Name
+						v.RevsAfter = append(v.RevsAfter, ex)
+					}
+				}
+			}
+		}
 	}
 	v.CurrentRev = v.UpdateRev
 	for _, rev := range v.RevsAfter {
